@@ -58,4 +58,26 @@ def gen(w, rng, tier):
                         ops.append(("fscale:same-value-other-digits", f"fscale {t['name']} {enc_dec(c * 10, n + 1)}"))
             for lab, a in amounts(w.be, rng, 2):
                 ops.append((f"fscale:{lab}", f"fscale {t['name']} {a}"))
+    # "the FIRST unit in that order": where a symbol or a scale occurs at two positions p < q of a type, the lookup
+    # is preceded by a successful lookup in ANOTHER type that lands on position q (state remembered from one call
+    # to the next — a cached position, say — would then point at the later duplicate)
+    for t in w.types:
+        seen = {}
+        for q, u in enumerate(t["units"]):
+            for key, val in (("sym", u["symbol"]), ("scale", u.get("scale") if t["kind"] == "withref" else None)):
+                if val is None:
+                    continue
+                k = (key, val)
+                if k in seen:
+                    donors = [a for a in w.types if a["name"] != t["name"] and a["n"] > q and
+                              (key == "sym" or a["kind"] == "withref")]
+                    for a in donors[:6]:
+                        if key == "sym":
+                            ops.append(("fsym:history", f"fsym {a['name']} {hexs(a['units'][q]['symbol'])}"))
+                            ops.append(("fsym:history", f"fsym {t['name']} {hexs(val)}"))
+                        else:
+                            ops.append(("fscale:history", f"fscale {a['name']} {a['units'][q]['scale']}"))
+                            ops.append(("fscale:history", f"fscale {t['name']} {val}"))
+                else:
+                    seen[k] = q
     return ops
